@@ -127,6 +127,24 @@ CLAIMS = {
         note="Relies on C04's rules; the implication itself is not machine-checked.",
         ref="DESIGN.md §5 C10",
     ),
+    "C15": dict(
+        category="proof",
+        engine="witness+mirdump",
+        technique="the compiler as decision procedure: compile-fail witnesses (expected error code on the marked line + "
+        "compiling twin), compile-pass witnesses, const-evaluated auto-trait assertions, and type-level queries "
+        "(variances_of, fn_sig regions, is_const_fn, impl table) from the type-checked crate",
+        text="Every contract of the statement is a fact of the type definitions; each is an obligation decided by rustc "
+        "itself: 30 must-fail witness programs (borrow kept by iter/iter_mut/range/range_mut/slice views/element refs/"
+        "drain/fill_buf; outliving the buffer; moving it while borrowed; IterMut invariance; lengthening of element or "
+        "borrow lifetimes; Drain/IterMut not Clone) each with a compiling twin, 7 must-compile witnesses (const/static "
+        "new incl. N=0 and non-Copy T, covariance of buffer/Iter/Drain/IntoIter, borrow shortening, Iter: Clone without "
+        "T: Clone, Default, iterator traits, disjoint mutable views), 32 const assertions that Send/Sync of buffer/"
+        "IntoIter/Iter/IterMut equal those of [E;4]/&[E]/&mut [E] for E in {u8, Cell, MutexGuard, Rc}, plus variance, "
+        "signature-region, const-fn and impl-table queries. One witness decides a contract for all client programs.",
+        note="Trusted base: rustc's type checker, borrow checker, variance inference, const evaluator; the driver's "
+        "serialisation; the impls! idiom (guarded by a must-fail sanity witness). obligations == discharged is required.",
+        ref="DESIGN.md §5 C15",
+    ),
 }
 
 
